@@ -562,8 +562,13 @@ Section Prune.
   Definition construct_dir (t : there) : content * bool :=
     match t with IsDir c => (c, false) | _ => (empty, true) end.
 
-  (* _cookBuildStep 1381-1392.  Result: content the build script will start
-     from, the `created` flag passed to it, the stored directory state. *)
+  (* _cookBuildStep, block "get directory into shape".  Result: content the
+     build script will start from, the `created` flag passed to it, the stored
+     directory state.  Since the fix "invalidate the workspace state before a
+     workspace is pruned" the code writes resetWorkspaceState(path, None)
+     before emptyDirectory and resetWorkspaceState(path, buildDigest) after
+     it; the model gives the state at the end of the block (the intermediate
+     crash points belong to C05/C10). *)
   Definition build_prepare (t : there) (old : option dstate) (digest : list str)
     : content * bool * option dstate :=
     let (c0, created) := construct_dir t in
@@ -572,7 +577,9 @@ Section Prune.
       (c1, true, Some (DBuild digest))              (* resetWorkspaceState(path, buildDigest) *)
     else (c0, false, old).
 
-  (* _preparePackageStep followed by the _constructDir of _cookPackageStep *)
+  (* _preparePackageStep followed by the _constructDir of _cookPackageStep
+     (state at the end; the prune first invalidates with
+     resetWorkspaceState(path, None), then empties, then records the digest) *)
   Definition package_prepare (t : there) (old : option dstate) (vid : str)
     : content * option dstate :=
     let something := match t with NoDir => false | _ => true end in
